@@ -63,7 +63,7 @@ pub fn opening_pairs(case: &Case) -> Vec<Value> {
     let secs: std::collections::BTreeSet<String> = case.files.iter().flatten().map(|r| r.sec.clone()).collect();
     for sec in secs.iter().filter(|s| !case.opening.contains_key(*s)) {
         let rows = sorted_single_file(case, sec);
-        let a_case = Case { id: format!("{}/n", case.id), files: vec![rows.clone()], opening: Default::default(), tags: case.tags.clone() };
+        let a_case = Case { id: format!("{}/n", case.id), files: vec![rows.clone()], opening: Default::default(), tags: case.tags.clone(), hdr: Vec::new() };
         let mut b_case = a_case.clone();
         b_case.id = format!("{}/o", case.id);
         b_case.opening.insert("OTHER.SEC".into(), (Num::S("17".into()), Num::S("1234.5".into())));
@@ -78,7 +78,7 @@ pub fn opening_pairs(case: &Case) -> Vec<Value> {
         if rows.is_empty() || n.dec().map(|d| d.is_zero()).unwrap_or(true) {
             continue;
         }
-        let a_case = Case { id: format!("{}/a", case.id), files: vec![rows.clone()], opening: [(sec.clone(), (n.clone(), c.clone()))].into_iter().collect(), tags: case.tags.clone() };
+        let a_case = Case { id: format!("{}/a", case.id), files: vec![rows.clone()], opening: [(sec.clone(), (n.clone(), c.clone()))].into_iter().collect(), tags: case.tags.clone(), hdr: Vec::new() };
         let first = rows.iter().map(|r| r.sd.min(r.td)).min().unwrap();
         let mut buy = blank_row(sec, first - 40);
         buy.act = "Buy".into();
@@ -87,7 +87,7 @@ pub fn opening_pairs(case: &Case) -> Vec<Value> {
         buy.c = c.clone();
         let mut brow = vec![buy];
         brow.extend(rows.iter().cloned());
-        let b_case = Case { id: format!("{}/b", case.id), files: vec![brow], opening: Default::default(), tags: case.tags.clone() };
+        let b_case = Case { id: format!("{}/b", case.id), files: vec![brow], opening: Default::default(), tags: case.tags.clone(), hdr: Vec::new() };
         let sa = ledger_segments(&a_case);
         let sb = ledger_segments(&b_case);
         if let (Some(a), Some(b)) = (seg_for(&sa, sec), seg_for(&sb, sec)) {
@@ -121,7 +121,7 @@ pub fn split_pairs(case: &Case, seed: u64) -> Vec<Value> {
         }
         let opening: std::collections::BTreeMap<String, (Num, Num)> =
             case.opening.iter().filter(|(s, _)| **s == sec).map(|(s, v)| (s.clone(), v.clone())).collect();
-        let a_case = Case { id: format!("{}/a", case.id), files: vec![rows.clone()], opening: opening.clone(), tags: case.tags.clone() };
+        let a_case = Case { id: format!("{}/a", case.id), files: vec![rows.clone()], opening: opening.clone(), tags: case.tags.clone(), hdr: Vec::new() };
         let sa = ledger_segments(&a_case);
         let a = match seg_for(&sa, &sec) {
             Some(a) if a["status"] == "ok" => a.clone(),
@@ -182,12 +182,119 @@ pub fn split_pairs(case: &Case, seed: u64) -> Vec<Value> {
             if !representable {
                 continue;
             }
-            let b_case = Case { id: format!("{}/b{}", case.id, k), files: vec![brow], opening: opening.clone(), tags: case.tags.clone() };
+            let b_case = Case { id: format!("{}/b{}", case.id, k), files: vec![brow], opening: opening.clone(), tags: case.tags.clone(), hdr: Vec::new() };
             let sb = ledger_segments(&b_case);
             if let Some(b) = seg_for(&sb, &sec) {
                 out.push(json!({"id": case.id, "kind": "split", "cls": "split", "a": a, "b": b, "k": k,
                     "post": dj(&Decimal::from(post)), "pre": dj(&Decimal::from(pre)), "perAff": per_aff}));
             }
+        }
+    }
+    out
+}
+
+fn full_model(case: &Case) -> Option<Value> {
+    match crate::report::render(case, true, false) {
+        Ok(r) => Some(crate::report::model_json(&r)),
+        Err(_) => None,
+    }
+}
+
+/// record relating the report of a whole input to the reports of its parts: aggregate gains add up,
+/// every security's table (figures, footer, errors) is the same in the whole and in its part
+fn aggsum_record(id: &str, cls: &str, whole_case: &Case, parts: &[Case]) -> Option<Value> {
+    let whole = full_model(whole_case)?;
+    let mut pv = Vec::new();
+    for p in parts {
+        pv.push(full_model(p)?);
+    }
+    Some(json!({"id": id, "kind": "aggsum", "cls": cls, "whole": whole, "parts": pv,
+                "a": {"sec": "*", "deltas": []}, "b": {"sec": "*", "deltas": []}}))
+}
+
+/// C08: every security alone versus within the whole input
+pub fn indep_pairs(case: &Case) -> Vec<Value> {
+    let mut out = Vec::new();
+    let secs: std::collections::BTreeSet<String> = case.files.iter().flatten().map(|r| r.sec.clone()).collect();
+    if secs.len() < 2 {
+        return out;
+    }
+    let whole = ledger_segments(case);
+    let mut parts = Vec::new();
+    for sec in &secs {
+        let files: Vec<Vec<Row>> = case.files.iter().map(|f| f.iter().filter(|r| r.sec == *sec).cloned().collect::<Vec<Row>>()).filter(|f: &Vec<Row>| !f.is_empty()).collect();
+        let opening = case.opening.iter().filter(|(s, _)| *s == sec).map(|(s, v)| (s.clone(), v.clone())).collect();
+        let part = Case { id: format!("{}/{}", case.id, sec), files, opening, tags: case.tags.clone(), hdr: Vec::new() };
+        let sp = ledger_segments(&part);
+        if let (Some(a), Some(b)) = (seg_for(&sp, sec), seg_for(&whole, sec)) {
+            if a["status"] != "skipped" && b["status"] != "skipped" {
+                out.push(json!({"id": case.id, "kind": "same", "cls": "independent", "a": a, "b": b, "k": 0, "post": dzero(), "pre": dzero(), "perAff": false}));
+            }
+        }
+        parts.push(part);
+    }
+    if whole.iter().all(|s| s["status"] == "ok" || s["status"] == "rejected") {
+        if let Some(r) = aggsum_record(&case.id, "independent", case, &parts) {
+            out.push(r);
+        }
+    }
+    out
+}
+
+/// the canonical layout of an input: one file, canonical header, rows of the concatenation stably
+/// sorted by (settlement day, security) - itself an admissible re-layout
+pub fn canonical_layout(case: &Case) -> Case {
+    let mut rows: Vec<Row> = case.files.iter().flatten().cloned().collect();
+    rows.sort_by(|a, b| (a.sd, &a.sec).cmp(&(b.sd, &b.sec)));
+    Case { id: format!("{}/canon", case.id), files: vec![rows], opening: case.opening.clone(), tags: case.tags.clone(), hdr: Vec::new() }
+}
+
+/// a random admissible re-layout: adjacent swaps that keep same-security same-day rows in order,
+/// a random partition into files, a random header variant per file
+pub fn random_relayout(case: &Case, seed: u64) -> Case {
+    let mut rng = StdRng::seed_from_u64(seed ^ 0x1a70);
+    let mut rows: Vec<Row> = case.files.iter().flatten().cloned().collect();
+    let n = rows.len();
+    if n >= 2 {
+        for _ in 0..(4 * n) {
+            let k = rng.gen_range(0..n - 1);
+            if !(rows[k].sec == rows[k + 1].sec && rows[k].sd == rows[k + 1].sd) {
+                rows.swap(k, k + 1);
+            }
+        }
+    }
+    let mut files: Vec<Vec<Row>> = vec![Vec::new()];
+    for r in rows {
+        if !files.last().unwrap().is_empty() && rng.gen_bool(0.25) {
+            files.push(Vec::new());
+        }
+        files.last_mut().unwrap().push(r);
+    }
+    let hdr = files.iter().map(|_| rng.gen_range(0..6)).collect();
+    Case { id: format!("{}/relaid", case.id), files, opening: case.opening.clone(), tags: case.tags.clone(), hdr }
+}
+
+/// C07: the input as laid out versus its canonical layout
+pub fn layout_pairs(case: &Case, seed: u64, randomise: bool) -> Vec<Value> {
+    let mut out = Vec::new();
+    let given = if randomise { random_relayout(case, seed) } else { case.clone() };
+    let canon = canonical_layout(&given);
+    let sg = ledger_segments(&given);
+    let sc = ledger_segments(&canon);
+    for a in &sc {
+        let sec = a["sec"].as_str().unwrap_or("");
+        if let Some(b) = seg_for(&sg, sec) {
+            out.push(json!({"id": given.id, "kind": "same", "cls": "layout", "a": a, "b": b, "k": 0, "post": dzero(), "pre": dzero(), "perAff": false,
+                            "layout": {"files": given.files.iter().map(|f| f.len()).collect::<Vec<_>>(), "hdr": given.hdr}}));
+        }
+    }
+    if sc.len() != sg.len() {
+        out.push(json!({"id": given.id, "kind": "same", "cls": "layout", "a": sc.get(0), "b": {"sec": "?", "rows": [], "deltas": [], "status": "missing", "msg": "different set of securities"}, "k": 0,
+                        "post": dzero(), "pre": dzero(), "perAff": false}));
+    }
+    if sc.iter().all(|s| s["status"] == "ok" || s["status"] == "rejected") {
+        if let Some(r) = aggsum_record(&given.id, "layout", &given, &[canon]) {
+            out.push(r);
         }
     }
     out
